@@ -1,7 +1,7 @@
 SPECIFICATION Spec
 CONSTANTS
   Langs = {"c", "cpp"}
-  BaseSet = "families"
+  BaseSet = "core"
   MaxMut = 2
   MinMut = 0
   MaxBoth = 1
